@@ -235,6 +235,11 @@ def run(ctx):
             path = os.path.join(root, "table_replay")
             tables = [tables[0], dict(rows=rr["rows"], file=path, name="replay")]
             wspec = [[path, [[s, n, float(x).hex()] for s, n, x in rr["rows"]]]]
+    # an export replaces what was at its path: half of the paths already hold an older, longer table
+    for k, (wpath, _rows) in enumerate(wspec):
+        if k % 2 == 0:
+            with open(wpath, "w") as f:
+                f.write("".join("zz%d,stale currency %d,%d.5\n" % (j, j, j + 1) for j in range(400)))
     whome = os.path.join(root, "whome")
     os.makedirs(whome)
     json.dump(wspec, open(os.path.join(root, "wspec.json"), "w"))
@@ -364,6 +369,11 @@ def run(ctx):
                 open(os.path.join(home, ".config", "ka", "config"), "w").write("base-currency = %s\n" % b)
                 if t["file"]:
                     shutil.copy(t["file"], os.path.join(home, ".config", "ka", "currency"))
+            if t["file"]:       # whatever the file's age: written years ago, last summer, in the future
+                cur = odd if ti % 2 == 0 else os.path.join(home, ".config", "ka", "currency")
+                age = (None, 946684800, 1717200000, 4102444800)[(ti // 2 + len(b)) % 4]
+                if age is not None:
+                    os.utime(cur, (age, age))
             sp = os.path.join(home, "spec.json")
             json.dump(dict(exprs=[e[0] for e in exprs], parse_text=t.get("text")), open(sp, "w"))
             jobs.append((home, driver, sp))
